@@ -37,6 +37,11 @@ ASSUMPTIONS = [
     "re-key/remove are not mixed with buffered blocks (outside the property's statement)",
 ]
 
+# how a Job/Project object is obtained (handle provenance); all of them must be ONE handle-equivalence class
+PROV_INIT, PROV_GET_ABS, PROV_GET_REL, PROV_CTOR_REL, PROV_CTOR_DOTDOT, PROV_CTOR_SYMLINK = range(6)
+PROVS = [PROV_INIT, PROV_GET_ABS, PROV_GET_REL, PROV_CTOR_REL, PROV_CTOR_REL, PROV_CTOR_DOTDOT, PROV_CTOR_SYMLINK]
+NCWD = 4   # chdir targets: 0 parent of the project, 1 project root, 2 workspace, 3 "/"
+
 DEFAULT_CAP = 32 * 2 ** 20
 NFILES = 4   # file 0 = project document, files 1..3 = jobs with state point {"a": f}
 KEYS = ["a", "b", "c", "k d", "é"]
@@ -173,7 +178,7 @@ class Gen:
     def open(self, f):
         j = self.nj
         self.nj += 1
-        self.items.append(["open", j, f])
+        self.items.append(["open", j, f, self.rng.choice(PROVS)])
         self.fid[j] = f
         self.live.append(j)
         return j
@@ -182,6 +187,8 @@ class Gen:
         rng = self.rng
         if not self.live:
             self.open(rng.choice([0, 1, 2, 3]))
+        if rng.random() < 0.07:
+            self.items.append(["chdir", rng.randrange(NCWD)])
         j = rng.choice(self.live)
         f = self.fid[j]
         if allow_life and self.lifecycle and f != 0 and rng.random() < 0.12:
@@ -297,6 +304,21 @@ def random_blocks(rng, items, live):
 
 
 GOLDEN = [
+    # handle provenance and working directory (seeded demo C05-5): a signac.Project("relative") object next to a
+    # get_project() object on the project document and on a job document, with chdir in between
+    {"cap0": DEFAULT_CAP, "threads": True, "label": "golden-provenance", "prog": [
+        ["open", 0, 0, PROV_CTOR_REL], ["open", 1, 0, PROV_GET_ABS], ["op", 0, [], ["set", "a", 1]],
+        ["op", 1, [], ["set", "b", {"c": [1, 2]}]], ["op", 0, [], ["get"]], ["op", 1, [], ["get"]],
+        ["enter", None], ["op", 0, [], ["set", "x", 10]], ["op", 0, ["b", "c"], ["append", 3]], ["op", 0, [], ["pop", "a", None]],
+        ["op", 0, [], ["get"]], ["exit"], ["op", 0, [], ["get"]], ["op", 1, [], ["get"]],
+        ["open", 2, 1, PROV_CTOR_REL], ["open", 3, 1, PROV_GET_ABS], ["op", 2, [], ["set", "k", 1]], ["chdir", 2],
+        ["op", 2, [], ["get"]], ["op", 3, [], ["get"]], ["op", 2, [], ["set", "m", 2]], ["chdir", 3], ["op", 3, [], ["get"]],
+        ["op", 2, [], ["get"]], ["enter", 40], ["op", 3, [], ["set", "n", [1]]], ["chdir", 0], ["op", 3, [], ["get"]], ["exit"],
+        ["op", 2, [], ["get"]], ["op", 3, [], ["get"]]]},
+    {"cap0": DEFAULT_CAP, "threads": True, "label": "golden-provenance-symlink-unbuffered", "prog": [
+        ["open", 0, 1, PROV_CTOR_SYMLINK], ["open", 1, 1, PROV_GET_REL], ["open", 2, 1, PROV_CTOR_DOTDOT], ["op", 0, [], ["set", "a", 1]],
+        ["chdir", 1], ["op", 1, [], ["set", "b", 2]], ["op", 2, [], ["get"]], ["op", 0, [], ["get"]], ["chdir", 3], ["op", 2, [], ["del", "a"]],
+        ["op", 0, [], ["get"]], ["op", 1, [], ["get"]]]},
     # the lost update of two objects in one buffered block (known finding 1)
     {"cap0": DEFAULT_CAP, "threads": True, "label": "golden-lost-update", "prog": [
         ["open", 0, 1], ["open", 1, 1], ["enter", None], ["op", 0, [], ["get"]], ["op", 1, [], ["get"]],
@@ -362,7 +384,7 @@ def alphabet():
 
 def exhaustive(maxlen):
     al = alphabet()
-    opens = [["open", 0, 1], ["open", 1, 1]]
+    opens = [["open", 0, 1, PROV_CTOR_REL], ["open", 1, 1, PROV_GET_ABS]]
     tail = [["op", 0, [], ["get"]], ["op", 1, [], ["get"]]]
     for n in range(1, maxlen + 1):
         for seq in itertools.product(range(len(al)), repeat=n):
@@ -377,6 +399,10 @@ def gen_inputs(tier, rng):
     nbase = 80 if tier == "quick" else 1500
 
     def add(prog, label, threads=True, cap0=DEFAULT_CAP):
+        if any(i[0] == "enter" for i in prog):
+            # two spellings of one file through a symlinked prefix get two buffer entries on the unchanged tree
+            # (reported to the coordinator, not filed): that provenance is exercised outside buffered blocks only
+            prog = [i[:3] + [PROV_CTOR_DOTDOT] if i[0] == "open" and len(i) > 3 and i[3] == PROV_CTOR_SYMLINK else i for i in prog]
         descs.append({"cap0": cap0, "threads": threads, "label": label, "prog": _typed_prog(prog)})
 
     for b in range(nbase):
@@ -480,7 +506,9 @@ def coq_dop(op):
 def coq_item(it):
     k = it[0]
     if k == "open":
-        return "(JOpen %s %s)" % (coq_N(it[1]), coq_N(it[2]))
+        return "(JOpen %s %s %s)" % (coq_N(it[1]), coq_N(it[2]), coq_N(it[3] if len(it) > 3 else PROV_GET_ABS))
+    if k == "chdir":
+        return "(JCwd %s)" % coq_N(it[1])
     if k == "op":
         return "(JOp %s %s %s)" % (coq_N(it[1]), coq_path(it[2]), coq_dop(it[3]))
     if k == "rekey":
@@ -566,6 +594,23 @@ def do_op(doc, path, op, rng_attr):
     raise AssertionError(op)
 
 
+def project_by_provenance(signac, project, root, prov):
+    """A Project object for the project at `root`, obtained in one of the ways users obtain one."""
+    if prov == PROV_INIT:
+        return project
+    if prov == PROV_GET_ABS:
+        return signac.get_project(root)
+    if prov == PROV_GET_REL:
+        return signac.get_project(os.path.relpath(root))
+    if prov == PROV_CTOR_REL:
+        return signac.Project(os.path.relpath(root))
+    if prov == PROV_CTOR_DOTDOT:
+        return signac.Project(os.path.join(root, "workspace", "..") + os.sep)
+    if prov == PROV_CTOR_SYMLINK:
+        return signac.Project(os.path.join(os.path.dirname(root), "lnk", os.path.basename(root)))
+    raise AssertionError(prov)
+
+
 def observe(signac, root, ids):
     files, dirs, stray = [], [], 0
     for name in sorted(os.listdir(root)):
@@ -601,7 +646,12 @@ def run_case(desc):
     thr = desc.get("threads", True)
     obs = []
     stack = []
-    with scratch_dir("c05") as root:
+    cwd0 = os.getcwd()
+    with scratch_dir("c05") as top:
+        top = os.path.realpath(top)
+        root = os.path.join(top, "p")
+        os.symlink(top, os.path.join(top, "lnk"))
+        os.chdir(top)
         project = signac.init_project(path=root)
         _reset_backend(signac, desc["cap0"])
         (JD.enable_multithreading if thr else JD.disable_multithreading)()
@@ -614,12 +664,18 @@ def run_case(desc):
                 try:
                     val = None
                     if k == "open":
-                        objs[it[1]] = signac.get_project(root) if it[2] == 0 else project.open_job(sp_of(it[2]))
+                        pr = project_by_provenance(signac, project, root, it[3] if len(it) > 3 else PROV_GET_ABS)
+                        objs[it[1]] = pr if it[2] == 0 else pr.open_job(sp_of(it[2]))
                         fid_of[it[1]] = it[2]
+                    elif k == "chdir":
+                        os.chdir([os.path.dirname(root), root, os.path.join(root, "workspace"), "/"][it[1]])
                     elif k == "op":
                         o = objs[it[1]]
                         if it[3][0] == "reset" and not it[2] and n % 2 == 0:
                             o.document = it[3][1]          # the setter spelling of reset
+                        elif (it[3][0] == "clear" and not it[2] and fid_of.get(it[1], 0) != 0 and n % 2 == 1
+                              and os.path.isdir(o.path)):
+                            o.clear()                      # Job.clear(): for the document this is document.clear()
                         else:
                             val = do_op(o.document if n % 3 else o.doc, it[2], copy.deepcopy(it[3]), n % 2 == 1)
                     elif k == "rekey":
@@ -662,6 +718,7 @@ def run_case(desc):
                     pass
             _reset_backend(signac, DEFAULT_CAP)
             JD.enable_multithreading()
+            os.chdir(cwd0)
     values = [it[3][1:] for it in prog if it[0] == "op"] + [[o["ret"][1]] for o in obs if o["ret"][0] == "ok"] + \
              [[v for _, v in o["files"]] for o in obs]
     coq = "{| c5_ftab := %s; c5_cap0 := %s; c5_prog := %s; c5_obs := %s |}" % (
